@@ -1,0 +1,10 @@
+//go:build verif && amd64
+
+package bytealg
+
+// Verification hooks (compiled only with -tags verif): direct access to the
+// Go fall-backs the amd64 assembly jumps to when POPCNT is unavailable.
+var (
+	VerifCountGeneric       = countGeneric
+	VerifCountGenericString = countGenericString
+)
